@@ -15,6 +15,7 @@ fn engines() -> Vec<(&'static [&'static str], Reg)> {
         (scn_competition::PROPERTIES, scn_competition::registry as Reg),
         (unitsim::PROPERTIES, unitsim::registry as Reg),
         (scn_user::PROPERTIES, scn_user::registry as Reg),
+        (scn_oracle::PROPERTIES, scn_oracle::registry as Reg),
     ]
 }
 
